@@ -143,6 +143,16 @@ CORE = [
     "bnd.0:?:?,asg.1.1.0:?,cpy,arik.add.0.0:?", "cst.le.1.0.-1.1:?,cpy,swp,fgt.0", "bnd.0:?:?,cpyc,cst1.le.1.0:?", "asg.1.1.0:?,cpy,swp,asg.0.2.1:?,norm",
     "bnd.0:?:?,cpy,top", "bnd.0:?:?,cst.le.1.0.-1.1:?,cpy,swp,ren.0.2",
 ]
+# several copies of one value (in particular of a widening result, which the copy-on-write wrapper stores twice),
+# each mutated in turn, and the value used again as the left operand of a widening
+COW_CORE = [
+    "bnd.0:0:?,cpy,arik.add.0.0:?,wid,cpy,cst1.le.1.1:?,swp,cpy,cst1.le.1.0:?",
+    "bnd.0:0:?,cpy,arik.add.0.0:?,wid,cpy,cst1.le.1.1:?,swp,cpy,swp,cst1.le.-1.0:?",
+    "bnd.0:0:?,bnd.1:0:?,cpy,arik.add.0.0:1,wid,cpy,asg.1.1.0:?,swp,cpy,arik.add.0.0:?,swp,wid",
+    "bnd.0:?:?,cpy,cst1.le.1.1:?,swp,cpy,cst1.le.1.0:?,swp,join",
+    "bnd.0:0:?,cpy,arik.add.0.0:?,widt:?:?,cpy,fgt.0,swp,cpy,cst1.le.1.0:?",
+    "bnd.0:?:?,swp,bnd.0:?:?,join,cpy,cst1.le.1.1:?,swp,cpy,cst1.le.1.0:?",
+]
 
 
 def core(nsym_cap=4):
